@@ -133,7 +133,10 @@ StructClauses(f, c, scriptsConfigured, evs) ==
   LET on == OuterNames(evs)
       oe == OuterEvs(evs)
       dec == IF \E i \in 1..Len(evs) : evs[i].ev = "decode_error" THEN {"C04.readable_end_to_end"} ELSE {}
-  IN dec \cup
+      \* GNU tar / GNU ar, given the same bytes, list the same members as the decoder the other clauses rely on
+      foreign == IF \E i \in 1..Len(evs) : evs[i].ev = "struct" /\ HasPrefix(evs[i].key, "foreign:") /\ evs[i].value \notin {"ok", "na"}
+                 THEN {"C04.foreign_reader_sees_same_members"} ELSE {}
+  IN dec \cup foreign \cup
   CASE f = "deb" ->
          (IF ~(Len(on) \in {3, 4} /\ on[1] = "debian-binary" /\ on[2] = "control.tar.gz"
                /\ on[3] \in {"data.tar.gz", "data.tar.xz", "data.tar.zst", "data.tar"}
